@@ -214,8 +214,23 @@ def run_case(case):
         a, b = rng.sample(singles, 2) if len(singles) >= 2 else (singles[0],
                                                                  singles[0])
         plans.append(('pair', apply(apply(base_plan, a), b), True))
+    # correlated layer faults along a base edge (derived and base layer
+    # both misbehave, incl. a base that cannot be torn down)
+    edges = [(ls['name'], b) for ls in spec['layers']
+             for b in ls.get('bases', []) if b != 'UNIT']
+    chain = []
+    for _ in range(3 if edges else 0):
+        d, b = rng.choice(edges)
+        p = {'layers': {
+            d: {rng.choice(['setUp', 'tearDown']):
+                'raise:' + rng.choice(['ValueError', 'KeyError'])},
+            b: {'tearDown': rng.choice(['nie', 'nie', 'raise:OSError'])}}}
+        chain.append(('chain', p, True))
     plans = plans[:1] + rng.sample(plans[1:], min(len(plans) - 1,
-                                                  case['budget']))
+                                                  case['budget'])) + \
+        chain[:max(1, case['budget'] // 4)] if chain else \
+        plans[:1] + rng.sample(plans[1:], min(len(plans) - 1,
+                                              case['budget']))
     viol = []
     counters = {}
     sigs = []
